@@ -144,6 +144,14 @@ func Criteria(c *m.Crit) query.Criteria {
 		return f.Contains(operands(c.Vals, c.Kind)...)
 	case "like":
 		return f.Like(c.Pat)
+	case "isnil":
+		return f.IsNil()
+	case "istrue":
+		return f.IsTrue()
+	case "isfalse":
+		return f.IsFalse()
+	case "isnilornotexists":
+		return f.IsNilOrNotExists()
 	case "exists":
 		return f.Exists()
 	case "notexists":
